@@ -76,3 +76,15 @@ func (a *Assembler) VerifRebind(p *StreamPool) {
 	a.connPool = p
 	a.ret = a.ret[:0]
 }
+
+// VerifConnLocked reports whether the connection's mutex is held right now
+// (by anyone).  Used by the harness to check that a stream callback really
+// runs under the connection lock and not only between the yield points.
+func VerifConnLocked(obj interface{}) bool {
+	c := obj.(*connection)
+	if c.mu.TryLock() {
+		c.mu.Unlock()
+		return false
+	}
+	return true
+}
